@@ -55,6 +55,7 @@ enum OpK {
     TryReserveX,
     Shrink,
     Capacity,
+    DebugFmt,
 }
 use OpK::*;
 
@@ -105,6 +106,7 @@ const WEIGHTS: &[(OpK, [u32; 6])] = &[
     (TryReserveX,    [   0,    0,    0,   20,    3,    3]),
     (Shrink,         [   0,    0,    0,   20,    3,    3]),
     (Capacity,       [   0,    0,    0,   20,    3,    3]),
+    (DebugFmt,       [   6,    4,    2,    4,    4,    4]),
 ];
 
 /// probability (percent) that an op of the `fuse` profile is prefixed `fuse k`
@@ -161,6 +163,7 @@ fn opk_of_name(n: &str) -> Option<OpK> {
         "tryreservex" => TryReserveX,
         "shrink" => Shrink,
         "capacity" => Capacity,
+        "debug" => DebugFmt,
         _ => return None,
     })
 }
@@ -1039,6 +1042,7 @@ impl<'a> Gen<'a> {
             }
             Shrink => format!("shrink {r}"),
             Capacity => format!("capacity {r}"),
+            DebugFmt => format!("debug {r}"),
             New | WithCap | FromVec | FromIter | Deser => unreachable!(),
         }
     }
